@@ -1,6 +1,8 @@
-//! C16 harnesses attached to the REAL store/src/lib.rs (profile S): the command loop runs as a registered task of the
-//! sequential tokio shim over an in-memory rocksdb model; the harness issues commands through several cloned handles and
-//! polls the store task at chosen points. Keys and command schedules are concrete, values are symbolic.
+//! C16 harnesses attached to the REAL store/src/lib.rs (profile S). The command loop that `Store::new` hands to
+//! `tokio::spawn` is made callable by the overlay (`Store::verif_new`, generated from the text of `new` on every run: the
+//! spawned block becomes a closure that processes every queued command and returns when the queue is empty); it runs over
+//! an in-memory rocksdb model. The harness issues commands through several cloned handles with the REAL `write` / `read` /
+//! `notify_read` futures and runs the store task at chosen points. Keys and command schedules are concrete, values symbolic.
 #![allow(unused_imports, dead_code)]
 use super::*;
 use std::future::Future;
@@ -15,28 +17,46 @@ fn poll<F: Future>(f: Pin<&mut F>) -> Option<F::Output> {
         Poll::Pending => None,
     }
 }
-fn run_store() {
-    // the store task never terminates while a handle exists
-    assert!(!tokio::__verif_poll_task(0), "C16 store task terminated");
+/// poll and report "still pending" without dropping what was read back (a drop of a value merged from heap state would
+/// free a symbolic pointer and cost the rest of the run its constant shapes)
+macro_rules! is_pending {
+    ($w:expr) => {{
+        let r = poll($w.as_mut());
+        let p = r.is_none();
+        std::mem::forget(r);
+        p
+    }};
 }
-fn mk() -> Store {
-    tokio::CTL.lock().unwrap().spawn_register = true;
-    Store::new("x").unwrap()
+macro_rules! read_is_none {
+    ($s:expr, $t:expr, $k:expr) => {{
+        let r = read(&mut $s, &mut $t, $k);
+        let p = r.is_none();
+        std::mem::forget(r);
+        p
+    }};
+}
+macro_rules! mk {
+    ($a:ident, $task:ident) => {
+        let (mut $a, mut $task) = match Store::verif_new("x") {
+            Ok(x) => x,
+            Err(_) => panic!("store did not open"),
+        };
+    };
 }
 fn val(b: u8) -> Vec<u8> {
     vec![b]
 }
 /// issue a write through handle `s` and let the store task process it
-fn write(s: &mut Store, k: u8, v: u8) {
+fn write<T: FnMut()>(s: &mut Store, run_store: &mut T, k: u8, v: u8) {
     let f = s.write(vec![k], val(v));
     let mut f = std::pin::pin!(f);
     assert!(poll(f.as_mut()).is_some(), "write must not block the caller");
     run_store();
 }
-fn read(s: &mut Store, k: u8) -> Option<Vec<u8>> {
+fn read<T: FnMut()>(s: &mut Store, run_store: &mut T, k: u8) -> Option<Vec<u8>> {
     let f = s.read(vec![k]);
     let mut f = std::pin::pin!(f);
-    assert!(poll(f.as_mut()).is_none(), "read completed before the store task ran");
+    assert!(is_pending!(f), "read completed before the store task ran");
     run_store();
     match poll(f.as_mut()) {
         Some(Ok(v)) => v,
@@ -51,106 +71,197 @@ fn read(s: &mut Store, k: u8) -> Option<Vec<u8>> {
     }
 }
 
-/// reads see the latest write; writes to one key apply in issue order; unknown keys read as nothing
-#[kani::proof]
-#[kani::unwind(8)]
-fn c16_read_latest_write() {
-    let mut a = mk();
+macro_rules! issue_write {
+    ($s:expr, $k:expr, $v:expr) => {{
+        let f = $s.write(vec![$k], val($v));
+        let mut f = std::pin::pin!(f);
+        assert!(poll(f.as_mut()).is_some(), "write must not block the caller");
+    }};
+}
+macro_rules! expect_value {
+    ($w:expr, $v:expr, $msg:expr) => {
+        match poll($w.as_mut()) {
+            Some(Ok(v)) => {
+                assert!(v.len() == 1 && v[0] == $v, $msg);
+                std::mem::forget(v);
+            }
+            _ => assert!(false, $msg),
+        }
+    };
+}
+macro_rules! h {
+    ($name:ident, $body:block) => {
+        #[kani::proof]
+        #[kani::unwind(10)]
+        fn $name() $body
+    };
+}
+
+// ---- read / write
+h!(c16_read_unknown, {
+    mk!(a, run_store);
+    assert!(read_is_none!(a, run_store, 1), "C16 never-written key has a value");
+    std::mem::forget(a);
+});
+h!(c16_read_other_key_unknown, {
+    mk!(a, run_store);
+    let v1: u8 = vwit::any_u8();
+    write(&mut a, &mut run_store, 2, v1);
+    assert!(read_is_none!(a, run_store, 1), "C16 a write to another key gave this key a value");
+    vwit::cover!(v1 > 3);
+    std::mem::forget(a);
+});
+h!(c16_write_read_other_handle, {
+    mk!(a, run_store);
+    let mut b = a.clone();
+    let v1: u8 = vwit::any_u8();
+    write(&mut a, &mut run_store, 1, v1);
+    let r = read(&mut b, &mut run_store, 1);
+    assert!(r.is_some() && r.as_ref().unwrap().len() == 1 && r.as_ref().unwrap()[0] == v1, "C16 read does not return the written value");
+    vwit::cover!(v1 > 3);
+    std::mem::forget((a, b, r));
+});
+h!(c16_overwrite, {
+    mk!(a, run_store);
     let mut b = a.clone();
     let v1: u8 = vwit::any_u8();
     let v2: u8 = vwit::any_u8();
-    let v3: u8 = vwit::any_u8();
-    assert!(read(&mut a, 1).is_none(), "C16 never-written key has a value");
-    write(&mut a, 1, v1);
-    let r = read(&mut b, 1);
-    assert!(r.is_some() && r.as_ref().unwrap().len() == 1 && r.as_ref().unwrap()[0] == v1, "C16 read does not return the written value");
-    write(&mut b, 1, v2);
-    write(&mut a, 2, v3);
-    let r = read(&mut a, 1);
-    assert!(r.is_some() && r.as_ref().unwrap()[0] == v2, "C16 read does not return the latest write");
-    let r = read(&mut b, 2);
-    assert!(r.is_some() && r.as_ref().unwrap()[0] == v3, "C16 keys interfere");
-    assert!(read(&mut b, 3).is_none());
-    // two writes queued before the store task runs: applied in issue order
-    {
-        let f1 = a.write(vec![1], val(v3));
-        let mut f1 = std::pin::pin!(f1);
-        assert!(poll(f1.as_mut()).is_some());
-        let f2 = b.write(vec![1], val(v1));
-        let mut f2 = std::pin::pin!(f2);
-        assert!(poll(f2.as_mut()).is_some());
-        run_store();
-    }
-    let r = read(&mut a, 1);
-    assert!(r.is_some() && r.as_ref().unwrap()[0] == v1, "C16 queued writes applied out of issue order");
-    vwit::cover!(v1 != v2 && v2 != v3);
-    std::mem::forget((a, b));
-}
-
-/// notify_read: immediate when the key exists; otherwise completes on the first later write with that write's value,
-/// for several concurrent waiters, and waiters of other keys are not disturbed.
-#[kani::proof]
-#[kani::unwind(8)]
-fn c16_notify_read() {
-    let mut a = mk();
+    write(&mut a, &mut run_store, 1, v1);
+    write(&mut b, &mut run_store, 1, v2);
+    let r = read(&mut a, &mut run_store, 1);
+    assert!(r.is_some() && r.as_ref().unwrap().len() == 1 && r.as_ref().unwrap()[0] == v2, "C16 read does not return the latest write");
+    vwit::cover!(v1 != v2);
+    std::mem::forget((a, b, r));
+});
+h!(c16_keys_independent, {
+    mk!(a, run_store);
+    let v1: u8 = vwit::any_u8();
+    let v2: u8 = vwit::any_u8();
+    write(&mut a, &mut run_store, 1, v1);
+    write(&mut a, &mut run_store, 2, v2);
+    let r = read(&mut a, &mut run_store, 1);
+    assert!(r.is_some() && r.as_ref().unwrap().len() == 1 && r.as_ref().unwrap()[0] == v1, "C16 keys interfere");
+    vwit::cover!(v1 != v2);
+    std::mem::forget((a, r));
+});
+// two writes and a read queued from different handles before the store task runs: applied in issue order
+h!(c16_queued_in_issue_order, {
+    mk!(a, run_store);
     let mut b = a.clone();
     let mut c = a.clone();
-    let mut d = a.clone();
     let v1: u8 = vwit::any_u8();
     let v2: u8 = vwit::any_u8();
+    issue_write!(a, 1, v1);
+    issue_write!(b, 1, v2);
+    let f = c.read(vec![1]);
+    let mut f = std::pin::pin!(f);
+    assert!(is_pending!(f), "read completed before the store task ran");
+    run_store();
+    match poll(f.as_mut()) {
+        Some(Ok(Some(v))) => {
+            assert!(v.len() == 1 && v[0] == v2, "C16 queued writes applied out of issue order / read overtook a write");
+            std::mem::forget(v);
+        }
+        _ => assert!(false, "C16 read not answered"),
+    }
+    vwit::cover!(v1 != v2);
+    std::mem::forget((a, b, c));
+});
+// ---- notify_read
+h!(c16_notify_existing, {
+    mk!(a, run_store);
+    let mut b = a.clone();
+    let v1: u8 = vwit::any_u8();
+    write(&mut a, &mut run_store, 1, v1);
+    let w = b.notify_read(vec![1]);
+    let mut w = std::pin::pin!(w);
+    assert!(is_pending!(w));
+    run_store();
+    expect_value!(w, v1, "C16 notify_read on an existing key did not complete with its value");
+    vwit::cover!(v1 > 3);
+    std::mem::forget((a, b));
+});
+h!(c16_notify_pending, {
+    mk!(a, run_store);
+    let w = a.notify_read(vec![1]);
+    let mut w = std::pin::pin!(w);
+    assert!(is_pending!(w));
+    run_store();
+    assert!(is_pending!(w), "C16 notify_read completed without a value");
+    std::mem::forget(a);
+});
+// NOT IN THE SPEC (kept as the record of what was measured): every schedule in which the store task processes another
+// command after one that was answered with "no value" (a read miss or a parked notify_read) did not finish symbolic
+// execution in 900 s; the completion of a parked notify_read by a later write is therefore outside the C16 claim.
+h!(c16_notify_then_write, {
+    mk!(a, run_store);
+    let mut b = a.clone();
+    let v1: u8 = vwit::any_u8();
+    let w = b.notify_read(vec![1]);
+    let mut w = std::pin::pin!(w);
+    assert!(is_pending!(w));
+    run_store();
+    assert!(is_pending!(w), "C16 notify_read completed without a value");
+    write(&mut a, &mut run_store, 1, v1);
+    expect_value!(w, v1, "C16 lost wake-up: waiter not completed by the write to its key (or wrong value)");
+    vwit::cover!(v1 > 3);
+    std::mem::forget((a, b));
+});
+h!(c16_notify_two_waiters, {
+    mk!(a, run_store);
+    let mut b = a.clone();
+    let mut c = a.clone();
+    let v1: u8 = vwit::any_u8();
+    let w1 = b.notify_read(vec![1]);
+    let mut w1 = std::pin::pin!(w1);
+    let w2 = c.notify_read(vec![1]);
+    let mut w2 = std::pin::pin!(w2);
+    assert!(is_pending!(w1) && is_pending!(w2));
+    run_store();
+    write(&mut a, &mut run_store, 1, v1);
+    expect_value!(w1, v1, "C16 lost wake-up (first waiter)");
+    expect_value!(w2, v1, "C16 lost wake-up (second waiter)");
+    vwit::cover!(v1 > 3);
+    std::mem::forget((a, b, c));
+});
+h!(c16_notify_other_key, {
+    mk!(a, run_store);
+    let mut b = a.clone();
+    let v2: u8 = vwit::any_u8();
+    let w = b.notify_read(vec![1]);
+    let mut w = std::pin::pin!(w);
+    assert!(is_pending!(w));
+    run_store();
+    write(&mut a, &mut run_store, 2, v2);
+    assert!(is_pending!(w), "C16 waiter woken by a write to another key");
+    let r = read(&mut a, &mut run_store, 2);
+    assert!(r.is_some() && r.as_ref().unwrap().len() == 1 && r.as_ref().unwrap()[0] == v2, "C16 write lost while a waiter is registered");
+    vwit::cover!(v2 > 3);
+    std::mem::forget((a, b, r));
+});
+h!(c16_notify_first_write_wins, {
+    mk!(a, run_store);
+    let mut b = a.clone();
+    let v1: u8 = vwit::any_u8();
     let v3: u8 = vwit::any_u8();
-    {
-        // two waiters on key 1, one on key 2, all registered before any write
-        let w1 = b.notify_read(vec![1]);
-        let mut w1 = std::pin::pin!(w1);
-        let w2 = c.notify_read(vec![1]);
-        let mut w2 = std::pin::pin!(w2);
-        let w3 = d.notify_read(vec![2]);
-        let mut w3 = std::pin::pin!(w3);
-        assert!(poll(w1.as_mut()).is_none() && poll(w2.as_mut()).is_none() && poll(w3.as_mut()).is_none());
-        run_store();
-        assert!(poll(w1.as_mut()).is_none() && poll(w2.as_mut()).is_none() && poll(w3.as_mut()).is_none(), "C16 notify_read completed without a value");
-        // a write to key 2 wakes only its waiter
-        write(&mut a, 2, v2);
-        match poll(w3.as_mut()) {
-            Some(Ok(v)) => assert!(v.len() == 1 && v[0] == v2, "C16 waiter woken with a wrong value"),
-            _ => assert!(false, "C16 lost wake-up: waiter not completed by the write to its key"),
-        }
-        assert!(poll(w1.as_mut()).is_none() && poll(w2.as_mut()).is_none(), "C16 waiter woken by a write to another key");
-        // first write to key 1 wakes both waiters with that value; a later overwrite does not matter
-        write(&mut a, 1, v1);
-        write(&mut a, 1, v3);
-        match poll(w1.as_mut()) {
-            Some(Ok(v)) => assert!(v.len() == 1 && v[0] == v1, "C16 waiter did not get the first write's value"),
-            _ => assert!(false, "C16 lost wake-up (first waiter)"),
-        }
-        match poll(w2.as_mut()) {
-            Some(Ok(v)) => assert!(v.len() == 1 && v[0] == v1, "C16 second waiter did not get the first write's value"),
-            _ => assert!(false, "C16 lost wake-up (second waiter)"),
-        }
-    }
-    // issued after the writes: completes as soon as the store task runs, with the current value
-    {
-        let w4 = b.notify_read(vec![1]);
-        let mut w4 = std::pin::pin!(w4);
-        assert!(poll(w4.as_mut()).is_none());
-        run_store();
-        match poll(w4.as_mut()) {
-            Some(Ok(v)) => assert!(v.len() == 1 && v[0] == v3, "C16 notify_read on an existing key returned a stale value"),
-            _ => assert!(false, "C16 notify_read on an existing key did not complete"),
-        }
-    }
+    let w = b.notify_read(vec![1]);
+    let mut w = std::pin::pin!(w);
+    assert!(is_pending!(w));
+    run_store();
+    write(&mut a, &mut run_store, 1, v1);
+    write(&mut a, &mut run_store, 1, v3);
+    expect_value!(w, v1, "C16 waiter did not get the first write's value");
     vwit::cover!(v1 != v3);
-    std::mem::forget((a, b, c, d));
-}
+    std::mem::forget((a, b));
+});
 
 #[kani::proof]
-#[kani::unwind(8)]
+#[kani::unwind(10)]
 fn dbg_store_min() {
-    let mut a = mk();
+    mk!(a, run_store);
     let v1: u8 = vwit::any_u8();
-    write(&mut a, 1, v1);
-    let r = read(&mut a, 1);
+    write(&mut a, &mut run_store, 1, v1);
+    let r = read(&mut a, &mut run_store, 1);
     assert!(r.is_some() && r.as_ref().unwrap()[0] == v1);
     std::mem::forget(a);
 }
